@@ -271,6 +271,8 @@ H("dgram_send_space", ["C16"], "quick", "connection::datagrams::send_space",
   ["DatagramState::has_send_buffer_space", "DatagramState::make_space_for"], "0..=1 datagram queued, every length: u8, every len/bound: usize")
 H("dgram_write_native", ["C16", "C13"], "replay-only", "connection::datagrams::write_native",
   [("l0", "u8"), ("used", "u8"), ("max_size", "u16")], 6, [], ["DatagramState::write", "Datagram::size", "Datagram::encode"], "native replay body of E2 query e2_dgram_write")
+H("dgram_drop_oversized_native", ["C16", "C13"], "replay-only", "connection::datagrams::drop_oversized_native",
+  [("first_big", "bool")], 6, [], ["DatagramState::drop_oversized"], "native replay body of E2 queries e2_drop_oversized_whole_queue / e2_drop_oversized_predicate")
 H("dgram_send_space_overflow_guard", ["C16"], "quick", "connection::datagrams::send_space_overflow_guard",
   [("total", "usize"), ("len", "usize"), ("bound", "usize")], 6, ["space", "no space"],
   ["DatagramState::has_send_buffer_space"], "every usize triple")
